@@ -248,6 +248,9 @@ func (h *History) reply(conn int, rid [16]byte, rep Reply) {
 			if h.atRisk != nil {
 				if g := h.atRisk(conn); g != nil {
 					rep.Recycled = true
+					if !g.excused && len(g.Replies) == 0 {
+						close(g.done) // its reply went out under a foreign RequestId: the client must not wait for it
+					}
 					g.excused = true
 					h.w.probe("reply_from_recycled_command")
 				}
@@ -256,12 +259,32 @@ func (h *History) reply(conn int, rid [16]byte, rep Reply) {
 			h.w.logf("R stray conn=%d rid=%x res=%d recycled=%v", conn, rid, rep.Result, rep.Recycled)
 			return
 		}
+		if len(r.Replies) > 0 && h.atRisk != nil {
+			first := r.Replies[0]
+			granted := r.Op.Cmd == protocol.COMMAND_LOCK && (first.Result == protocol.RESULT_SUCCED || (first.Result == protocol.RESULT_LOCKED_ERROR && r.Op.Flag&protocol.LOCK_FLAG_UPDATE_WHEN_LOCKED != 0))
+			legitSecond := len(r.Replies) == 1 && granted && rep.Result == protocol.RESULT_EXPRIED
+			if !legitSecond {
+				// finding F8 with the recycled command object re-used by the same connection: the
+				// reply of an at-risk request of this connection arrives under this request's id
+				if g := h.atRisk(conn); g != nil && g != r {
+					rep.StrayRid, rep.Recycled = rid, true
+					if !g.excused && len(g.Replies) == 0 {
+						close(g.done)
+					}
+					g.excused = true
+					h.w.probe("reply_from_recycled_command")
+					h.stray = append(h.stray, rep)
+					h.w.logf("R stray conn=%d rid=%x res=%d recycled=%v (second reply under an id of the same connection)", conn, rid, rep.Result, rep.Recycled)
+					return
+				}
+			}
+		}
 		r.Replies = append(r.Replies, rep)
 		h.w.logf("R c%d#%d conn=%d res=%d type=%d lc=%d lrc=%d data=%x t=%s", r.Client, r.Idx, conn, rep.Result, rep.CmdType, rep.LCount, rep.LRCount, rep.Data, h.w.simT())
 		for _, f := range h.onReply {
 			f(r, &r.Replies[len(r.Replies)-1])
 		}
-		if len(r.Replies) == 1 {
+		if len(r.Replies) == 1 && !r.excused {
 			close(r.done)
 		}
 	})
